@@ -166,7 +166,12 @@ class Check:
             futs = {ex.submit(_worker_entry, modname, fnname, it): it for it in items}
             try:
                 for f in as_completed(futs, timeout=budget_s):
-                    self._absorb(f.result())
+                    it = futs[f]
+                    try:
+                        self._absorb(f.result())
+                    except Exception as e:  # worker process died (e.g. out of memory)
+                        self.obs.append(ob("harness", str(it.get("config", it)), "error", what=f"worker failed: {type(e).__name__}: {e}",
+                                           stretch=bool(it.get("stretch"))))
                     del futs[f]
             except TimeoutError:
                 for f, it in futs.items():
